@@ -25,6 +25,7 @@ import CtyModel.Lemmas.WalkPathSet
 import CtyModel.Lemmas.WalkTrans
 import CtyModel.Lemmas.WalkReplace
 import CtyModel.Lemmas.WalkMarks
+import CtyModel.Lemmas.WalkRawEq
 namespace CtyModel
 namespace C19
 open Walk
@@ -207,6 +208,21 @@ theorem transform_id_partial {X : SetOracle} (hX : IterPerm X) {σ : Sched} (hσ
   simp only [preorder, preFuel_visit]
   exact exits_idEvs_perm hX hσ _ v hg.shaped []
 
+
+/-- …in the property's own words: the result `RawEquals` the input (`Value.rawEquals`
+is the transliteration of `Value.RawEquals`; capsule values, which compare by Go
+pointer identity, are outside the model). -/
+theorem transform_id_rawEquals_partial {X : SetOracle} (hX : IterPerm X) {σ : Sched} (hσ : SchedOk σ)
+    (v : Value) (hg : Good X v) (hc : Ty.hasCapsule v.ty = false) :
+    ∃ log r, transform X σ idCb v = (log, .ok r) ∧ Value.rawEquals X r v = .ok true ∧
+      (exits log).Perm (walk X descend v).1 := by
+  obtain ⟨log, h1, h2⟩ := transform_id_partial hX hσ v hg
+  have hw : Ty.wf v.ty = true := by
+    have := hg.ty
+    simp only [tyOk, Bool.and_eq_true] at this
+    exact this.1
+  exact ⟨log, v, h1, rawEquals_refl hX v hg.shaped hw hc, h2⟩
+
 /-- the result does not depend on the schedule (the callback log does, by a permutation) -/
 theorem transform_id_schedule_indep {X : SetOracle} (hX : IterPerm X) {σ σ' : Sched}
     (hσ : SchedOk σ) (hσ' : SchedOk σ') (v : Value) (hg : Good X v) :
@@ -365,6 +381,7 @@ def X1 : SetOracle :=
   SetOracle.storage (fun _ p => match p with | .s "p" => 5 | .s "q" => 7 | _ => 0)
 
 example : IterPerm X1 := iterPerm_storage _
+example : Ty.hasCapsule sample.ty = false := by decide
 example : Good X1 sample :=
   ⟨by decide, by decide, by
     simp only [sample, SetsStable, SetsStableZip, SetsStableAll, and_true, true_and]
